@@ -714,6 +714,89 @@ def cache_matches_sg(cr, kc, Cs):
             cr["parity_acc"] == (0 if kc.gacc == 1 else 1) and cr["tweak"] == kc.tacc)
 
 
+# ----------------------------------------------------------------------------- object codecs (cpoint / cpoint_ext / scalar)
+def codec_halves():
+    """33-byte strings for one half of a public / aggregate nonce"""
+    out = []
+    xs_on, xs_off = [], []
+    x = 1
+    while len(xs_on) < 2 or len(xs_off) < 2:
+        (xs_on if C.lift_x(x) is not None else xs_off).append(x)
+        x += 1
+    xs_on, xs_off = xs_on[:2], xs_off[:2]
+    big_on = P - 1
+    while C.lift_x(big_on) is None:
+        big_on -= 1
+    gx = C.G[0]
+    for x in [gx, C.mulG(7)[0], xs_on[0], xs_on[1], big_on, xs_off[0], xs_off[1], 0, P - 1, P, P + xs_on[0], 2**256 - 1]:
+        for pre in (0, 1, 2, 3, 4, 5, 6, 7, 0x82, 0xFF):
+            out.append(bytes([pre]) + b32(x % 2**256))
+    # the infinity encoding and its near misses: 33 zero bytes with ONE byte set, at every position
+    out.append(bytes(33))
+    for pos in range(33):
+        for v in (1, 2, 3, 0x80, 0xFF):
+            z = bytearray(33)
+            z[pos] = v
+            out.append(bytes(z))
+    seen, res = set(), []
+    for h in out:
+        if h not in seen:
+            seen.add(h)
+            res.append(h)
+    return res
+
+
+def codec_case(W, case, st):
+    """case = (kind, half index, 33-byte half): the other half is a valid point; model = cpoint (pubnonce) / cpoint_ext (aggnonce)"""
+    L = W.L
+    kind, hi, half = case
+    good = M.cbytes(C.mulG(11))
+    ser = (half + good) if hi == 0 else (good + half)
+    obj = buf(b"\x33" * (SZ_PUBNONCE if kind == "pubnonce" else SZ_AGGNONCE))
+    fn = L.musig_pubnonce_parse if kind == "pubnonce" else L.musig_aggnonce_parse
+    ret = fn(L.ctx, obj, exact(ser))
+    st.calls += 1
+    try:
+        (M.cpoint if kind == "pubnonce" else M.cpoint_ext)(half)
+        want = 1
+    except M.Fail:
+        want = 0
+    st.count("%s-%s" % (kind, "accept" if want else "reject"))
+    if ret != want:
+        st.fail("musig_%s_parse returned %d for a half %s; BIP-327 %s says %s" % (kind, ret, hx(half), "cpoint" if kind == "pubnonce" else "cpoint_ext", "accept" if want else "reject"),
+                {"cfg": L.config, "kind": kind, "half": hi, "bytes": hx(ser)})
+    elif want:
+        st.nt((kind, hi, half))
+        out = buf(66)
+        r2 = (L.musig_pubnonce_serialize if kind == "pubnonce" else L.musig_aggnonce_serialize)(L.ctx, out, obj)
+        st.calls += 1
+        if r2 != 1 or out.raw != ser:
+            st.fail("musig_%s: serialize(parse(bytes)) is not the identity" % kind, {"cfg": L.config, "bytes": hx(ser), "got": hx(out.raw)})
+    if L.illegal or L.errors:
+        st.fail("callback fired while parsing bytes", {"cfg": L.config, "bytes": hx(ser)})
+        L.cb_reset()
+    if half == bytes(33):
+        st.sample({"kind": kind, "half": hi, "bytes": "00*33", "accepted": bool(ret)})
+
+
+def psig_codec_case(W, s, st):
+    L = W.L
+    obj = buf(b"\x33" * SZ_PSIG)
+    ret = L.musig_partial_sig_parse(L.ctx, obj, exact(b32(s)))
+    st.calls += 1
+    st.count("psig-%s" % ("accept" if s < N else "reject"))
+    if ret != (1 if s < N else 0):
+        st.fail("musig_partial_sig_parse(%s) returned %d" % (hex(s), ret), {"cfg": L.config, "s": hex(s)})
+    elif ret:
+        st.nt(s)
+        out = buf(32)
+        if L.musig_partial_sig_serialize(L.ctx, out, obj) != 1 or out.raw != b32(s):
+            st.fail("partial_sig: serialize(parse(s)) is not the identity", {"cfg": L.config, "s": hex(s)})
+    if L.illegal or L.errors:
+        st.fail("callback fired while parsing bytes", {"cfg": L.config, "s": hex(s)})
+        L.cb_reset()
+
+
 # ----------------------------------------------------------------------------- case generators
 def all_words(maxlen, kinds=(ONE, NM1, FILL, ODD)):
     letters = [(x, k) for x in (0, 1) for k in kinds]
@@ -813,6 +896,17 @@ def main():
                             cases.append(((u, tuple(range(u))), w, mi, adp, ("fix",), 0, tuple(ks), True))
         phase(run, "%s/aggregate-nonce-at-infinity" % cfg, run_session, cases, setup=psetup(cfg),
                   rule="signers {2,3} with secnonces written with chosen k so that the first / second / both components of the aggregate nonce cancel (or none) x adaptor {absent, generic T, T = -R1 so that R1+T cancels} x 4 tweak words x 2 messages; infinity encoding of the aggnonce, b, final nonce = G branch, partial sigs and aggregate compared with the model; final signature validity as the BIP-340 model says")
+        # ---- P4b object codecs
+        halves = codec_halves()
+        cases = [(kind, hi, h) for kind in ("pubnonce", "aggnonce") for hi in (0, 1) for h in halves]
+        phase(run, "%s/object-codecs" % cfg, codec_case, cases, setup=psetup(cfg),
+              rule="pubnonce / aggnonce parsers on each half in turn: 10 prefix bytes x 12 x values (on-curve, off-curve, 0, p-1, p, x+p, 2^256-1) and the 33-zero-byte infinity encoding with ONE byte set at every position (5 values); verdict = BIP-327 cpoint / cpoint_ext; accepted strings must round-trip")
+        scs = sc_alphabet()
+        for v_ in limb_boundaries([N]):
+            if v_ not in scs:
+                scs.append(v_)
+        phase(run, "%s/partial-sig-codec" % cfg, psig_codec_case, scs, setup=psetup(cfg),
+              rule="partial_sig_parse over the SC alphabet and the limb-boundary neighbours of n: accepted iff s < n, round trip")
         # ---- P5 tweak errors
         cases = [((2, (0, 1)), pre + ((x, kind),), 1, 0, GEN_ALL, 0, None, True)
                  for pre in ((), ((1, ODD),), ((0, FILL), (1, ODD))) for x in (0, 1) for kind in (T_N, T_MAX, T_CANCEL)]
